@@ -297,11 +297,23 @@ def conc_jobs(tier, seed):
     every schedule in real threads parked by the yield hook and TLC validates tags and outputs against the model."""
     quick = tier == 'quick'
     jobs = []
-    combos = [(1, 1), (2, 1), (3, 1), (1, 3), (5, 1)] if quick else [(1, 1), (2, 1), (3, 1), (4, 1), (1, 3), (2, 3), (1, 2), (3, 2), (5, 1), (1, 4), (1, 5), (3, 4)]
+    combos = [(1, 1), (2, 1), (3, 1), (1, 3), (5, 1), (6, 2), (7, 1)] if quick else \
+             [(1, 1), (2, 1), (3, 1), (4, 1), (1, 3), (2, 3), (1, 2), (3, 2), (5, 1), (1, 4), (1, 5), (3, 4), (6, 2), (6, 1), (7, 1), (7, 2), (8, 2), (8, 1)]
     for sh, op in combos:
-        jobs.append(dict(kind='mc', name=f'mc_sched_{sh}_{op}', module='Gen_Sched.tla', constants=dict(ShapeId=sh, OpsId=op, SharedMode=False),
-                         invariants=['InvSequential'], properties=[], workers=4, timeout=900))
-        jobs.append(dict(kind='module_gen', name=f'sched_{sh}_{op}', module='Gen_Sched.tla', constants=dict(ShapeId=sh, OpsId=op, SharedMode=True), style=0))
+        jobs.append(dict(kind='mc', name=f'mc_sched_{sh}_{op}', module='Gen_Sched.tla', constants=dict(ShapeId=sh, OpsId=op, SharedMode=False, Rounds=0, Big=False),
+                         invariants=['InvSequential'], properties=[], workers=4, timeout=900, view='SView'))
+        jobs.append(dict(kind='module_gen', name=f'sched_{sh}_{op}', module='Gen_Sched.tla',
+                         constants=dict(ShapeId=sh, OpsId=op, SharedMode=True, Rounds=0, Big=False), style=0))
+    # three threads on the larger shapes: the model only (the number of schedules is beyond replaying them all)
+    for sh, op in ([(7, 4)] if quick else [(7, 4), (7, 5), (8, 4), (8, 5), (4, 4), (4, 5), (6, 4)]):
+        jobs.append(dict(kind='mc', name=f'mc_sched_{sh}_{op}', module='Gen_Sched.tla', constants=dict(ShapeId=sh, OpsId=op, SharedMode=False, Rounds=0, Big=False),
+                         invariants=['InvSequential'], properties=[], workers=4, timeout=900, view='SView'))
+    # free-running rounds: real parallel threads, the interleaving is inferred by TLC (StamConcurrency!FreeConforms)
+    free = [(6, 2, True), (7, 4, True), (2, 1, False), (3, 4, False)] if quick else \
+           [(6, 2, True), (6, 4, True), (7, 4, True), (7, 2, True), (8, 2, True), (2, 1, False), (2, 3, False), (3, 4, False), (4, 4, False), (1, 5, False)]
+    for sh, op, big in free:
+        jobs.append(dict(kind='module_gen', name=f'free_{sh}_{op}', module='Gen_Sched.tla',
+                         constants=dict(ShapeId=sh, OpsId=op, SharedMode=True, Rounds=(6 if big else 12) if quick else (25 if big else 60), Big=big), style=0))
     return jobs
 
 
@@ -327,7 +339,7 @@ def validation_jobs(tier, seed):
     return jobs
 
 
-JSON_RTS = [RT('json', 'string'), RT('json', 'string', True), RT('json', 'file'), RT('json', 'resources'), RT('json', 'datasets'),
+JSON_RTS = [RT('json', 'string'), RT('json', 'string', True), RT('json', 'file'), RT('json', 'resources'), RT('json', 'resjson'), RT('json', 'datasets'),
             RT('json', 'both'), RT('json', 'substore')]
 
 
